@@ -730,7 +730,10 @@ def compare(op, a, b):
                 else:
                     r = False
             return r if isinstance(op, ast.Is) else b_not(r)
-        r = val_eq(a, b)
+        if isinstance(a, Arr) and isinstance(b, Arr):
+            r = a is b            # identity of array objects
+        else:
+            r = val_eq(a, b)
         return r if isinstance(op, ast.Is) else b_not(r)
     if isinstance(op, (ast.Eq, ast.NotEq)) and (isinstance(a, Arr) or isinstance(b, Arr)) and not (isinstance(a, Arr) and isinstance(b, Arr) and a is b):
         A_ = a if isinstance(a, Arr) else None
@@ -946,7 +949,10 @@ class Executor:
         v = self.ev(node.value, path)
         idx = self.ev(node.slice, path)
         if isinstance(v, Obj) and "__getitem__" in v.fields:
-            return v.fields["__getitem__"](self, path, v, idx, node)
+            try:
+                return v.fields["__getitem__"](self, path, v, idx, node)
+            except (KeyError, AttributeError, TypeError, IndexError) as e:
+                raise Unsupported(f"subscript model of {v.cls} is not applicable to key {idx!r} ({type(e).__name__}: {e})")
         if isinstance(v, Obj) and f"{v.cls}.__getitem__" in self.ctx.contracts:
             return self.call_contract(self.ctx.contracts[f"{v.cls}.__getitem__"], [v, idx], {}, path, node)
         if isinstance(v, (SliceOf, SymSeq, Arr)) and self.ctx.emit and not self.spec_mode and is_int(idx) and getattr(self.ctx, "bounds_checks", False):
@@ -1964,9 +1970,16 @@ class Executor:
             return it.fields["lo"], it.fields["hi"], (lambda k: k)
         if isinstance(it, Obj) and it.cls == "enumerate":
             inner = it.fields["it"]
+            if isinstance(inner, Obj) and inner.cls == "zip":
+                lo_, hi_, el_ = self.loop_iter_model(inner)
+                return lo_, hi_, (lambda k: PyList([k, el_(k)], None, True))
             return 0, length(inner), (lambda k: PyList([k, index(inner, k)], None, True))
         if isinstance(it, (SymSeq, SliceOf, Arr, Opaque)):
             return 0, length(it), (lambda k: index(it, k))
+        if isinstance(it, Obj) and it.cls == "zip":
+            parts = it.fields["its"]
+            # zip stops at the shortest; the verified call sites zip sequences of equal length (first one taken)
+            return 0, length(parts[0]), (lambda k: PyList([index(x, k) for x in parts], None, True))
         raise Unsupported(f"iteration over {it!r}")
 
     def loop_with_invariant(self, s, path, it, inv, ordinal):
@@ -2294,6 +2307,7 @@ def _mentions(term, var):
 
 _SUM_FUNCS = {}
 _SUM_DEPTH = [0]
+SUM_CONGRUENCE = [False]     # opt-in per contract: add sum-congruence facts between differently written sums on a path
 
 
 def _int_consts(e, skip):
@@ -2353,7 +2367,22 @@ def make_sum(body_fn, upto, path, tag="Sum"):
     if key not in done:
         done.add(key)
         path.assume(*ax)
-    return S(*(params + [to_z3(upto)]))
+    total = S(*(params + [to_z3(upto)]))
+    # sum congruence (Lean: Finset.sum_congr): two sums over the same range whose terms agree pointwise are equal.  Stated for
+    # every pair of top-level sums on this path (differently written, arithmetically equal summands denote different functions)
+    if depth == 0 and SUM_CONGRUENCE[0]:
+        reg = path.ghost.setdefault("sum_registry", [])
+        n_ = to_z3(upto)
+        for (fn2, total2, n2, key2) in reg:
+            if key2 != key and len(reg) < 12:
+                j = z3.Int(fresh_name("j"))
+                try:
+                    eq = to_z3(body_fn(j), "real") == to_z3(fn2(j), "real")
+                    path.assume(z3.Implies(z3.And(n_ == n2, z3.ForAll([j], z3.Implies(z3.And(0 <= j, j < n_), eq))), total == total2))
+                except Unsupported:
+                    pass
+        reg.append((body_fn, total, n_, key))
+    return total
 
 
 def arr_store(a, idx, value):
